@@ -122,6 +122,31 @@ structure RSt where
 
 def RSt.init : RSt := { phase := .start 0 }
 
+/-- one byte inside a header block: `k` bytes of CRLFCRLF are matched.  `none` where the
+implementation's answer depends on the chunking: `CRLFCR` + other byte (an error is raised only
+if a chunk ended after the CR), `CRLF` + LF (at a chunk end Python's `$` takes `CRLF LF` for
+`CRLF`). -/
+def kstep (k : Nat) (b : UInt8) : Option Nat :=
+  if k = 3 ∧ b ≠ LF then none
+  else if k = 2 ∧ b = LF then none
+  else some (stepM CRLFx2 k b)
+
+inductive HStep
+  | undef | stop | done | next (ph : Phase)
+  deriving Repr, DecidableEq
+
+/-- one byte after a delimiter / inside a header block -/
+def hstep : Phase → UInt8 → HStep
+  | .afterDelim, b =>
+    if b = CR then .next .afterCR else if b = HYPHEN then .next .afterHyphen else .undef
+  | .afterCR, b => if b = LF then .next (.headers 0) else .undef
+  | .afterHyphen, b => if b = HYPHEN then .stop else .undef
+  | .headers k, b =>
+    match kstep k b with
+    | none => .undef
+    | some k' => if k' = 4 then .done else .next (.headers k')
+  | _, _ => .undef
+
 /-- consume the byte `b` (at absolute position `s.pos`); `none` = the implementation's behaviour
 from here on depends on the chunking -/
 def step (tok : Bytes) (s : RSt) (b : UInt8) : Option RSt :=
@@ -148,21 +173,46 @@ def step (tok : Bytes) (s : RSt) (b : UInt8) : Option RSt :=
       some { next with phase := .afterDelim, secStart := (s.pos : Int) + 1 + 2,
                        markups := s.markups ++ [⟨.data, s.secStart, (s.pos : Int) + 1 - tok.length⟩] }
     else some { next with phase := .data m' }
-  | .afterDelim =>
-    if b = CR then some { next with phase := .afterCR }
-    else if b = HYPHEN then some { next with phase := .afterHyphen }
-    else none
-  | .afterCR => if b = LF then some { next with phase := .headers 0 } else none
-  | .afterHyphen => if b = HYPHEN then some { next with phase := .stopped } else none
-  | .headers k =>
-    if k = 3 ∧ b ≠ LF then none              -- CRLFCR + other: error or not, by chunking
-    else if k = 2 ∧ b = LF then none         -- CRLF LF at a chunk end looks like CRLF (`$`)
-    else
-      let k' := stepM CRLFx2 k b
-      if k' = 4 then
-        some { next with phase := .data 0, secStart := (s.pos : Int) + 1,
-                         markups := s.markups ++ [⟨.headers, s.secStart, (s.pos : Int) + 1 - 4⟩] }
-      else some { next with phase := .headers k' }
+  | ph =>
+    match hstep ph b with
+    | .undef => none
+    | .stop => some { next with phase := .stopped }
+    | .done =>
+      some { next with phase := .data 0, secStart := (s.pos : Int) + 1,
+                       markups := s.markups ++ [⟨.headers, s.secStart, (s.pos : Int) + 1 - 4⟩] }
+    | .next ph' => some { next with phase := ph' }
+
+/-- result of running the post-delimiter phases in isolation -/
+inductive HRes
+  | undef
+  | stop                 -- the closing `--` was read
+  | done (j : Nat)       -- CRLFCRLF completed by the `j`-th byte read (1-based)
+  | more (ph : Phase)    -- out of bytes in phase `ph`
+  deriving Repr, DecidableEq
+
+def HRes.bump : HRes → HRes
+  | .done j => .done (j + 1)
+  | r => r
+
+/-- the post-delimiter phases of the reference machine in isolation -/
+def runH : Phase → Bytes → HRes
+  | ph, [] => .more ph
+  | ph, b :: bs =>
+    match hstep ph b with
+    | .undef => .undef
+    | .stop => .stop
+    | .done => .done 1
+    | .next ph' => (runH ph' bs).bump
+
+/-- `self.headers_end_expected` when `k` bytes of CRLFCRLF are matched at a chunk end -/
+def heeOf (k : Nat) : Option Bytes := if k = 0 then none else some (CRLFx2.drop k)
+
+/-- the `HeadersEaeter` object in a post-delimiter phase -/
+def eaterOf : Phase → Eater
+  | .afterCR => { eatMeth := .lf }
+  | .afterHyphen => { eatMeth := .lastHyphen }
+  | .headers k => { eatMeth := .headers, headersEndExpected := heeOf k }
+  | _ => {}
 
 def runFrom (tok : Bytes) : RSt → Bytes → Option RSt
   | s, [] => some s
